@@ -111,52 +111,54 @@ def run(ctx, chk):
                   "named renderer), end - nothing skipped; lines are joined with newlines")
     fm = ctx.rspirv.fn(DIS, "disassemble", "Module", "Disassemble")
     WM = raw.where("disassemble", "Module", "disassemble.rs")
-    events = module_walk(fm)
-    want = ["header", "globals", "for f in functions", "f.def", "f.parameters", "for bb in f.blocks", "bb.label", "for inst in bb.instructions", "inst",
-            "end-for inst", "end-for bb", "f.end", "end-for f", "join-lines"]
-    chk.check(R2, events == want, "Module::disassemble:walk", "walk is %s, expected %s" % (events, want), WM, sample=events, key="C07:walk")
-    # globals go through global_inst_iter with Constant special-cased only
-    gl = [n for n in walk(fm["body"]) if n[0] == "mcall" and n[2] == "map" and show(n[1]) == "self.global_inst_iter()"]
-    ok = False
-    if len(gl) == 1 and gl[0][3][0][0] == "closure":
-        m = unblock(gl[0][3][0][2])
-        if m[0] == "match" and len(m[2]) == 2:
-            arms = {show(a_[0]): show(unblock(a_[2])) for a_ in m[2]}
-            v = gl[0][3][0][1][0][1]
-            ok = arms.get("spirv::Op::Constant", "").startswith("disas_constant(%s," % v) and arms.get("_") == "%s.disassemble()" % v
-    chk.check(R2, ok, "globals:every-instruction", "global section rendering is not `every instruction, OpConstant typed`", WM)
+    from . import walkx
+
+    def names(ps):
+        return [p_ if isinstance(p_, str) else ":".join(str(x) for x in p_[1:3]) for p_ in ps] if isinstance(ps, list) else ps
+    for full in (True, False):
+        inst = "Module::disassemble(%s)" % ("module with header, one instruction per section, a function with parameter and labelled block" if full
+                                            else "module without header, function without definition/parameters, block without label")
+        try:
+            got = walkx.module_disassemble(ctx, full)
+        except Anchor as ex:
+            chk.bad(R2, inst, "not analysable: %s" % ex, WM, key="C07:walk-shape")
+            continue
+        want = walkx.expected_module(full)
+        chk.check(R2, got == want, inst, "renders %s, expected %s (OpConstant through the typed renderer after all of types_global_values was tracked, "
+                  "OpExtInst through the named renderer after all imports were tracked)" % (names(got), names(want)), WM, key="C07:walk", sample=names(got) if full else None)
+        for ty in ("Function", "Block"):
+            inst = "%s::disassemble(%s)" % (ty, "full" if full else "without definition/parameters/label")
+            try:
+                got = walkx.container_disassemble(ctx, ty, full)
+            except Anchor as ex:
+                chk.bad(R2, inst, "not analysable: %s" % ex, raw.where("disassemble", ty, "disassemble.rs"), key="C07:walk-shape:" + ty)
+                continue
+            want = walkx.expected_container(ty, full)
+            chk.check(R2, got == want, inst, "renders %s, expected %s" % (names(got), names(want)), raw.where("disassemble", ty, "disassemble.rs"), key="C07:walk:" + ty)
 
     R3 = chk.rule("S3-OPERANDS", "Disassemble for Operand: the three id variants as `%n`; every bit-mask variant through its generated "
                   "specification-name table; everything else through Display, which prints value enums by variant name (Debug; Dim "
                   "without its prefix), strings quoted/escaped with {:?} and numbers in decimal")
     fo = ctx.rspirv.fn(DIS, "disassemble", "Operand", "Disassemble")
     WO = raw.where("disassemble", "Operand", "disassemble.rs")
-    m = unblock(fo["body"][1][0][1])
     op_enum = ctx.rspirv.item(CON, "enum", "Operand")
     variants = {v["name"]: v["fields"][0][1].replace(" ", "").split("::")[-1] for v in op_enum["variants"]}
-    arm_of = {}
-    default = None
-    if m[0] == "match":
-        for pat, guard, body in m[2]:
-            for p in (pat[1] if pat[0] == "p_or" else [pat]):
-                if p[0] == "p_wild":
-                    default = show(unblock(body))
-                elif p[0] == "p_ts":
-                    arm_of[p[1].split("::")[-1]] = (p[2][0][1] if p[2] and p[2][0][0] == "p_ident" else "?", show(unblock(body)))
     mt = mask_tables(ctx)
     for v, pty in sorted(variants.items()):
         inst = "Operand::" + v
+        try:
+            how = walkx.operand_disassemble(ctx, v)
+        except Anchor as ex:
+            chk.bad(R3, inst, "not analysable: %s" % ex, WO, key="C07:operand-shape")
+            continue
         if v in ("IdRef", "IdScope", "IdMemorySemantics"):
-            a_ = arm_of.get(v)
-            chk.check(R3, a_ is not None and fmt_args_text(a_[1]) == ("%{0}", a_[0]), inst, "id operand rendered as %s" % (a_,), WO)
+            chk.check(R3, how == "id", inst, "id operand rendered as %s, expected `%%` followed by the id" % how, WO)
         elif pty in masks:
-            a_ = arm_of.get(v)
-            chk.check(R3, a_ is not None and a_[1] == "%s.disassemble()" % a_[0] and pty in mt, inst,
-                      "bit-mask operand %s is not rendered through its specification-name table (falls through to %s)" % (v, default if a_ is None else a_[1]),
+            chk.check(R3, how == "payload-table" and pty in mt, inst,
+                      "bit-mask operand %s is not rendered through its specification-name table (rendered as %s)" % (v, how),
                       WO, key="C07:mask-dispatch:%s" % v)
         else:
-            a_ = arm_of.get(v)
-            chk.check(R3, a_ is None and default is not None and fmt_args_text(default) == ("{0}", "self"), inst, "rendered as %s" % (a_ or default,), WO)
+            chk.check(R3, how == "display", inst, "rendered as %s, expected its Display form" % how, WO)
     # Display for Operand
     fd = ctx.rspirv.fn(CON, "fmt", "Operand", "Display")
     dm = unblock(fd["body"][1][0][1])
@@ -237,8 +239,12 @@ def run(ctx, chk):
             continue
         want = ("instr", ("inst",), ("str", " "), ("litbit", ("sym", "V0"), ("sym", "TYPE"))) if typed else ("generic",)
         chk.check(R5, r == want, "disas_constant(%s)" % name, "renders %s, expected %s" % (str(r)[:200], want), WC_, key="C07:disas_constant:%s" % name)
-    tr = [show(n) for n in walk(fm["body"]) if n[0] == "for" and "types_global_values" in show(n[2])]
-    chk.check(R5, len(tr) == 1 and "global_type_tracker.track(" in tr[0], "type-tracker-fed-from-types_global_values", "tracker feeding: %s" % [x[:80] for x in tr], WM)
+    try:
+        tw = [p_ for p_ in walkx.module_disassemble(ctx, True) if isinstance(p_, tuple) and p_[1] == "typed-constant"]
+        chk.check(R5, tw == [("text", "typed-constant", "CONSTANT", "TypeTracker", ("TYPE", "CONSTANT", "VARIABLE"))], "type-tracker-fed-from-types_global_values",
+                  "the constant is rendered as %s" % tw, WM)
+    except Anchor as ex:
+        chk.bad(R5, "type-tracker-fed-from-types_global_values", "not analysable: %s" % ex, WM)
 
     R6 = chk.rule("S5-EXTINST", "OpExtInst in a block is rendered as set id, the extended instruction's name when the set was imported as "
                   "GLSL.std.450 / OpenCL.std (looked up in that set's table), then every remaining operand")
